@@ -31,6 +31,29 @@ type Fact struct {
 	Pol  bool
 	Atom string // canonical rendering, e.g. "a <= b", "x != nil", "!f(y)#1"
 	If   *ssa.BasicBlock
+	Via  *ssa.Call // set when the fact was obtained by expanding a boolean helper call
+}
+
+// R resolves a value that occurs in the fact's condition to the caller's vocabulary: a parameter
+// of the expanded helper is replaced by the corresponding argument of the call.
+func (f Fact) R(v ssa.Value) ssa.Value {
+	for d := 0; d < 3 && f.Via != nil; d++ {
+		prm, ok := v.(*ssa.Parameter)
+		if !ok {
+			return v
+		}
+		callee := f.Via.Call.StaticCallee()
+		if callee == nil || prm.Parent() != callee {
+			return v
+		}
+		for k, q := range callee.Params {
+			if q == prm && k < len(f.Via.Call.Args) {
+				return f.Via.Call.Args[k]
+			}
+		}
+		return v
+	}
+	return v
 }
 
 // reach returns the set of blocks reachable from start with the cut edges removed.
@@ -196,7 +219,124 @@ func expand(cond ssa.Value, pol bool, at *ssa.BasicBlock, base Cuts, depth int) 
 			return out
 		}
 	}
-	return []Fact{{Cond: cond, Pol: pol, Atom: Atom(cond, pol), If: at}}
+	out := []Fact{{Cond: cond, Pol: pol, Atom: Atom(cond, pol), If: at}}
+	if cl, ok := cond.(*ssa.Call); ok {
+		out = append(out, expandPredicate(cl, pol, at, depth, false)...)
+	}
+	// `helper(args) == nil` for a helper returning only an error: the facts on every way the
+	// helper returns nil
+	if b, ok := cond.(*ssa.BinOp); ok && (b.Op == token.EQL || b.Op == token.NEQ) {
+		x, y := b.X, b.Y
+		if isNilConst(x) {
+			x, y = y, x
+		}
+		if cl, isCall := x.(*ssa.Call); isCall && isNilConst(y) && (b.Op == token.EQL) == pol {
+			out = append(out, expandPredicate(cl, true, at, depth, true)...)
+		}
+	}
+	return out
+}
+
+func isNilConst(v ssa.Value) bool {
+	c, ok := v.(*ssa.Const)
+	return ok && c.Value == nil
+}
+
+// ModulePrefix limits predicate expansion to functions of the analysed repository.
+var ModulePrefix = "github.com/alephium/wormhole-fork/"
+
+var predDepth = 0
+
+// expandPredicate: the condition is the result of a call to a boolean helper of the repository
+// whose body is available (`if !w.isFinal(ev) { return }`). The facts that hold on EVERY way the
+// helper can return `pol` are added, rendered with the helper's parameters replaced by the call's
+// arguments, so that moving a guard into a helper does not hide it from the rules.
+func expandPredicate(cl *ssa.Call, pol bool, at *ssa.BasicBlock, depth int, errNil bool) []Fact {
+	callee := cl.Call.StaticCallee()
+	if callee == nil || len(callee.Blocks) == 0 || callee.Pkg == nil || !strings.HasPrefix(callee.Pkg.Pkg.Path(), ModulePrefix) {
+		return nil
+	}
+	if callee.Signature.Results().Len() != 1 || predDepth >= 2 {
+		return nil
+	}
+	if rt := callee.Signature.Results().At(0).Type(); errNil != (rt.String() == "error") || (!errNil && !isBoolType(rt)) {
+		return nil
+	}
+	if len(cl.Call.Args) != len(callee.Params) {
+		return nil
+	}
+	predDepth++
+	defer func() { predDepth-- }()
+	saved := map[*ssa.Parameter]ssa.Value{}
+	for k, prm := range callee.Params {
+		if old, ok := paramBinding[prm]; ok {
+			saved[prm] = old
+		}
+		paramBinding[prm] = cl.Call.Args[k]
+	}
+	defer func() {
+		for _, prm := range callee.Params {
+			if old, ok := saved[prm]; ok {
+				paramBinding[prm] = old
+			} else {
+				delete(paramBinding, prm)
+			}
+		}
+	}()
+	var ways [][]Fact
+	for _, b := range callee.Blocks {
+		if len(b.Instrs) == 0 {
+			continue
+		}
+		r, ok := b.Instrs[len(b.Instrs)-1].(*ssa.Return)
+		if !ok || len(r.Results) != 1 || b.Comment == "recover" {
+			continue
+		}
+		v := r.Results[0]
+		if errNil {
+			// ways the helper returns a nil error; a non-constant result may or may not be nil
+			// and contributes no facts (it makes the intersection empty)
+			if isNilConst(v) {
+				ways = append(ways, At(r, nil))
+			} else if _, isMI := v.(*ssa.MakeInterface); isMI {
+				// a freshly built error value is never nil
+			} else if cc, isCall := v.(*ssa.Call); isCall && strings.HasPrefix(CalleeName(&cc.Call), "fmt.Errorf") || isCall && strings.HasPrefix(CalleeName(&cc.Call), "errors.New") {
+				// never nil
+			} else {
+				ways = append(ways, nil)
+			}
+			continue
+		}
+		if c, isC := isBoolConst(v); isC {
+			if c == pol {
+				ways = append(ways, At(r, nil))
+			}
+			continue
+		}
+		here := At(r, nil)
+		for _, conj := range DNF(v, pol) {
+			ways = append(ways, append(append([]Fact{}, conj...), here...))
+		}
+	}
+	if len(ways) == 0 {
+		return nil
+	}
+	acc := ways[0]
+	for _, w := range ways[1:] {
+		acc = intersect(acc, w)
+	}
+	var out []Fact
+	for _, f := range acc {
+		// re-render under the binding (atoms computed by At/DNF already were, since the binding
+		// was active), and attach to the caller's branch block
+		out = append(out, Fact{Cond: f.Cond, Pol: f.Pol, Atom: f.Atom, If: at, Via: cl})
+	}
+	return out
+}
+
+func isBoolType(t types.Type) bool {
+	b, ok := t.Underlying().(*types.Basic)
+	return ok && b.Info()&types.IsBoolean != 0
 }
 
 var invOp = map[token.Token]token.Token{token.EQL: token.NEQ, token.NEQ: token.EQL, token.LSS: token.GEQ,
@@ -716,4 +856,32 @@ func dnf(cond ssa.Value, pol bool, at *ssa.BasicBlock, depth int) [][]Fact {
 		return out
 	}
 	return [][]Fact{{{Cond: cond, Pol: pol, Atom: Atom(cond, pol), If: at}}}
+}
+
+// BeforeFrom reports whether every path from block start to instruction b — ignoring the cut
+// edges — passes an instruction satisfying pred (start's own instructions count).
+func BeforeFrom(start *ssa.BasicBlock, b ssa.Instruction, cuts Cuts, pred func(ssa.Instruction) bool) bool {
+	fn := b.Parent()
+	bi := instrIndex(b)
+	for i := 0; i < bi; i++ {
+		if pred(b.Block().Instrs[i]) {
+			return true
+		}
+	}
+	stop := map[*ssa.BasicBlock]bool{}
+	for _, blk := range fn.Blocks {
+		if blk == b.Block() {
+			continue
+		}
+		for _, ins := range blk.Instrs {
+			if pred(ins) {
+				stop[blk] = true
+				break
+			}
+		}
+	}
+	if stop[start] {
+		return true
+	}
+	return !reach(start, cuts, stop)[b.Block()]
 }
